@@ -248,7 +248,8 @@ func c18R1(c *Ctx, fns []*ssa.Function) {
 			if sig == nil || ErrResultIndex(sig) < 0 {
 				continue
 			}
-			touches := nm == "os.CreateTemp" || nm == "io/ioutil.TempFile"
+			// every content copy inside the ingest function is examined, whatever its destination looks like
+			touches := nm == "os.CreateTemp" || nm == "io/ioutil.TempFile" || nm == "io.Copy" || nm == "io.CopyBuffer" || nm == "io.CopyN" || nm == "io.WriteString"
 			for _, a := range call.Common().Args {
 				if c18FileFrom(a, creates) {
 					touches = true
@@ -259,6 +260,7 @@ func c18R1(c *Ctx, fns []*ssa.Function) {
 			}
 			if nm == "io.Copy" || nm == "io.CopyBuffer" || nm == "io.CopyN" || nm == "(*os.File).Write" || nm == "(*os.File).WriteString" || nm == "io.WriteString" || nm == "(*os.File).ReadFrom" {
 				writes = append(writes, call)
+				c18WriterIsTempFile(c, R1, I, call, creates)
 			}
 			if v := call.Value(); v != nil && ErrNilStatus(v, 0) == NonNil {
 				continue
@@ -278,6 +280,87 @@ func c18R1(c *Ctx, fns []*ssa.Function) {
 		c.Check(R1, in+"|success-implies-content-written", I.Pos(), ok,
 			ifelse(ok, "every successful return lies behind the err==nil edge of the content copy", "the ingest can report success without having written the whole content"))
 	}
+}
+
+// c18WriterIsTempFile: the destination of the content copy is the temp
+// *os.File itself (or an io.MultiWriter containing it).  A buffering wrapper
+// defers the real write(2) to its Flush/Close, whose error must then surface on
+// every successful return; otherwise a short write leaves a truncated temp file
+// that is renamed over the config while Put reports success.
+func c18WriterIsTempFile(c *Ctx, R1 string, I *ssa.Function, cp ssa.CallInstruction, creates map[ssa.Value]bool) {
+	key := FnName(I) + "|copy-destination-is-temp-file"
+	dst := cp.Common().Args[0]
+	var wrappers []*ssa.Call
+	var unknown []string
+	var visit func(v ssa.Value, depth int)
+	visit = func(v ssa.Value, depth int) {
+		for _, r := range Roots(v) {
+			if creates[r] {
+				continue
+			}
+			if ex, ok := r.(*ssa.Extract); ok && creates[ex] {
+				continue
+			}
+			call, isCall := r.(*ssa.Call)
+			if !isCall || depth > 3 {
+				unknown = append(unknown, describe(r))
+				continue
+			}
+			switch CalleeName(call) {
+			case "io.MultiWriter":
+				var els []ssa.Value
+				c11SliceElems(call.Call.Args[0], &els)
+				for _, e := range els {
+					visit(e, depth+1)
+				}
+			case "bufio.NewWriter", "bufio.NewWriterSize":
+				wrappers = append(wrappers, call)
+			default:
+				unknown = append(unknown, "result of "+CalleeName(call))
+			}
+		}
+	}
+	visit(dst, 0)
+	if len(unknown) > 0 {
+		c.Undecided(R1, key, cp.Pos(), "the content is written through "+strings.Join(unknown, ", ")+", which wraps (or replaces) the temp file in a way the checker does not model: if it buffers, the error of the real write may be lost")
+		return
+	}
+	atoms := c11SuccessAtoms(I)
+	for _, w := range wrappers {
+		var flushNil []Edge
+		bad := ""
+		n := 0
+		for _, f := range append([]*ssa.Function{I}, Anons(I)...) {
+			for _, fl := range CallsTo(f, "(*bufio.Writer).Flush") {
+				if !c11DerivesFrom(fl.Common().Args[0], map[ssa.Value]bool{w: true}) {
+					continue
+				}
+				n++
+				if _, isDefer := fl.(*ssa.Defer); isDefer || f != I {
+					bad = "the buffered writer is flushed in a defer / closure whose error is dropped"
+					continue
+				}
+				if r := ErrFlow(fl, ErrFlowOpts{}); !r.OK {
+					bad = "the error of Flush does not surface: " + r.Detail
+					continue
+				}
+				if e := ErrOf(fl); e != nil {
+					ne, _, _ := NilTests(I, Aliases(e))
+					flushNil = append(flushNil, ne...)
+				}
+			}
+		}
+		ok := len(flushNil) > 0 && len(atoms) > 0 && c11AllAtomsPass(atoms, func() *cut { return newCut().Edges(flushNil...) })
+		if !ok && bad == "" {
+			bad = ifelse(n == 0, "the buffered writer is never flushed", "a successful return does not lie behind a successful Flush")
+		}
+		if !ok {
+			c.Violation(R1, key, cp.Pos(), "the content is copied into a bufio.Writer around the temp file and "+bad+": the only real write happens in Flush, a failing/short write (ENOSPC, quota, EIO) "+
+				"leaves a truncated temp file, the ingest reports success and the truncated file is renamed over the config")
+			return
+		}
+	}
+	c.OK(R1, key, cp.Pos(), ifelse(len(wrappers) == 0, "the copy writes to the temp *os.File itself: the write error is the copy's error", "buffered writer flushed with its error surfacing on every successful return"))
 }
 
 // c18TempDirIsTargetDir: the dir argument of the temp-file creation is (through
@@ -690,7 +773,8 @@ func c18R3(c *Ctx, fns []*ssa.Function, fields map[string]types.Type) {
 
 func c18R4(c *Ctx) {
 	const R4 = "C18.R4.format-guard"
-	c.Expect(R4, 2)
+	c.Expect(R4, 5)
+	c18Forwarding(c, R4)
 	put := c.P.Fn("registry/remote/credentials", "FileStore.Put")
 	if put == nil {
 		c.LostAnchor(R4, "(*~/registry/remote/credentials.FileStore).Put")
@@ -745,6 +829,60 @@ func c18R4(c *Ctx) {
 		ok = len(valNil) > 0 && MustPass(p.(ssa.Instruction), newCut().Edges(valNil...))
 		c.Check(R4, pn+"|colon-rule-checked"+sfx, p.Pos(), ok, ifelse(ok, "PutCredential is reached only behind the successful username-colon validation",
 			"PutCredential is reachable without the username-colon validation: base64(user:pass) is then split at the wrong colon and Get returns a different credential"))
+	}
+}
+
+// c18Forwarding: FileStore.Put / Delete / Get are pure forwarders: every
+// nil-error return has passed the matching Config operation with the caller's
+// own arguments, and no other mutating Config operation is reachable.
+func c18Forwarding(c *Ctx, R4 string) {
+	cfgM := "(*" + c18Cfg + ")."
+	type fw struct {
+		method, want string
+		forbid       []string
+	}
+	for _, x := range []fw{
+		{"Put", "PutCredential", []string{"DeleteCredential", "SetCredentialsStore"}},
+		{"Delete", "DeleteCredential", []string{"PutCredential", "SetCredentialsStore"}},
+		{"Get", "GetCredential", []string{"PutCredential", "DeleteCredential", "SetCredentialsStore"}},
+	} {
+		fn := c.P.Fn("registry/remote/credentials", "FileStore."+x.method)
+		if fn == nil {
+			c.LostAnchor(R4, "(*~/registry/remote/credentials.FileStore)."+x.method)
+			continue
+		}
+		tn := FnName(fn)
+		calls := CallsTo(fn, cfgM+x.want)
+		atoms := c11SuccessAtoms(fn)
+		ok := len(calls) > 0 && len(atoms) > 0 && c11AllAtomsPass(atoms, func() *cut { return newCut().Calls(calls) })
+		why := ""
+		if !ok {
+			why = "a successful return of " + x.method + " is reachable without Config." + x.want
+		}
+		// the caller's own arguments, unchanged
+		for _, call := range calls {
+			for i, a := range call.Common().Args {
+				if i == 0 {
+					continue // the Config
+				}
+				rs := Roots(a)
+				if len(rs) != 1 {
+					ok, why = false, "an argument of Config."+x.want+" is not the caller's own argument"
+					continue
+				}
+				if p, isP := rs[0].(*ssa.Parameter); !isP || p.Parent() != fn {
+					ok, why = false, "an argument of Config."+x.want+" ("+describe(rs[0])+") is not the caller's own argument passed through unchanged"
+				}
+			}
+		}
+		for _, fb := range x.forbid {
+			name := cfgM + fb
+			if reachesCall(fn, 2, func(n string, _ ssa.CallInstruction) bool { return n == name }) {
+				ok, why = false, x.method+" can reach Config."+fb
+			}
+		}
+		c.Check(R4, tn+"|forwards-to-"+x.want, fn.Pos(), ok, ifelse(ok, "every successful return has passed Config."+x.want+" with the caller's own arguments; no other mutating Config operation is reachable",
+			why+": the file after "+x.method+" is not what the sequential model of Get/Put/Delete prescribes (e.g. Put of an empty credential must still leave an entry that shadows legacy URL keys)"))
 	}
 }
 
@@ -811,7 +949,20 @@ var c18Mutants = []Mutant{
 		Old:    "\tcfg.content[configFieldAuths] = authsBytes\n",
 		New:    "\tif len(cfg.authsCache) > 0 {\n\t\tcfg.content[configFieldAuths] = authsBytes\n\t}\n",
 		Expect: "C18.R3.preservation|(*~/registry/remote/credentials/internal/config.Config).saveFile|refreshed-before-marshal:auths"},
+	{Name: "copy-through-deferred-flush", File: "registry/remote/credentials/internal/ioutil/ioutil.go",
+		Old:    "import (\n\t\"fmt\"\n\t\"io\"\n\t\"os\"\n)\n\n// Ingest writes content into a temporary ingest file with the file name format\n// \"oras_credstore_temp_{randomString}\".\nfunc Ingest(dir string, content io.Reader) (path string, ingestErr error) {\n\ttempFile, err := os.CreateTemp(dir, \"oras_credstore_temp_*\")\n\tif err != nil {\n\t\treturn \"\", fmt.Errorf(\"failed to create ingest file: %w\", err)\n\t}\n\tpath = tempFile.Name()\n\tdefer func() {\n\t\tif err := tempFile.Close(); err != nil && ingestErr == nil {\n\t\t\tingestErr = fmt.Errorf(\"failed to close ingest file: %w\", err)\n\t\t}\n\t\t// remove the temp file in case of error.\n\t\tif ingestErr != nil {\n\t\t\tos.Remove(path)\n\t\t}\n\t}()\n\n\tif err := tempFile.Chmod(0600); err != nil {\n\t\treturn \"\", fmt.Errorf(\"failed to ensure permission: %w\", err)\n\t}\n\tif _, err := io.Copy(tempFile, content); err != nil {",
+		New:    "import (\n\t\"bufio\"\n\t\"fmt\"\n\t\"io\"\n\t\"os\"\n)\n\n// Ingest writes content into a temporary ingest file with the file name format\n// \"oras_credstore_temp_{randomString}\".\nfunc Ingest(dir string, content io.Reader) (path string, ingestErr error) {\n\ttempFile, err := os.CreateTemp(dir, \"oras_credstore_temp_*\")\n\tif err != nil {\n\t\treturn \"\", fmt.Errorf(\"failed to create ingest file: %w\", err)\n\t}\n\tpath = tempFile.Name()\n\tdefer func() {\n\t\tif err := tempFile.Close(); err != nil && ingestErr == nil {\n\t\t\tingestErr = fmt.Errorf(\"failed to close ingest file: %w\", err)\n\t\t}\n\t\t// remove the temp file in case of error.\n\t\tif ingestErr != nil {\n\t\t\tos.Remove(path)\n\t\t}\n\t}()\n\n\tif err := tempFile.Chmod(0600); err != nil {\n\t\treturn \"\", fmt.Errorf(\"failed to ensure permission: %w\", err)\n\t}\n\tw := bufio.NewWriter(tempFile)\n\tdefer w.Flush()\n\tif _, err := io.Copy(w, content); err != nil {",
+		Expect: "C18.R1.atomic-replace|~/registry/remote/credentials/internal/ioutil.Ingest|copy-destination-is-temp-file"},
+	{Name: "copy-through-anonymous-wrapper", File: "registry/remote/credentials/internal/ioutil/ioutil.go",
+		Old: "\tif _, err := io.Copy(tempFile, content); err != nil {", New: "\tif _, err := io.Copy(struct{ io.Writer }{tempFile}, content); err != nil {",
+		Expect: "C18.R1.atomic-replace|~/registry/remote/credentials/internal/ioutil.Ingest|copy-destination-is-temp-file"},
 	// R4
+	{Name: "put-empty-credential-deletes", File: "registry/remote/credentials/file_store.go",
+		Old: "\n\treturn fs.config.PutCredential(serverAddress, cred)", New: "\tif cred == auth.EmptyCredential {\n\t\treturn fs.config.DeleteCredential(serverAddress)\n\t}\n\treturn fs.config.PutCredential(serverAddress, cred)",
+		Expect: "C18.R4.format-guard|(*~/registry/remote/credentials.FileStore).Put|forwards-to-PutCredential"},
+	{Name: "delete-normalises-address", File: "registry/remote/credentials/file_store.go",
+		Old: "\treturn fs.config.DeleteCredential(serverAddress)", New: "\treturn fs.config.DeleteCredential(strings.ToLower(serverAddress))",
+		Expect: "C18.R4.format-guard|(*~/registry/remote/credentials.FileStore).Delete|forwards-to-DeleteCredential"},
 	{Name: "colon-check-dropped", File: "registry/remote/credentials/file_store.go",
 		Old:    "\tif err := validateCredentialFormat(cred); err != nil {\n\t\treturn err\n\t}\n",
 		New:    "\t_ = validateCredentialFormat\n",
